@@ -223,6 +223,16 @@ def F22():
     return shown, f"Equals[1,2]==Equals[2,1]: {Equals[1, 2] == Equals[2, 1]}; re-registering under allow_replacement=False: same spelling -> {r_same[:35]!r}, reordered -> {str(r_reo)[:20]!r}; dispatch same/reordered: {disp}"
 
 
+def F29():
+    """C09: call_next with positional parameters given by keyword out of positional order ends in 'No method'."""
+    @ovld
+    def f(x: int, y: int = 0): return ("int", call_next(y=y, x=x))
+    @ovld
+    def f(x: object, y: int = 0): return ("object", x, y)
+    r = outcome(lambda: f(1, 2))
+    return r != ("int", ("object", 1, 2)), f"f(1, 2) with call_next(y=y, x=x): {str(r)[:90]}"
+
+
 # --------------------------------------------------------------------------- C18 / C19
 def F05():
     """C18: a failed build leaves the generated entry point live over a partially filled table."""
@@ -447,7 +457,7 @@ def F20():
 
 
 ALL = ["F01", "F02", "F03", "F04", "F05", "F06", "F07", "F08", "F09", "F10", "F11",
-       "F12", "F13", "F14", "F15", "F16", "F17", "F18", "F19", "F20", "F21", "F22"]
+       "F12", "F13", "F14", "F15", "F16", "F17", "F18", "F19", "F20", "F21", "F22", "F29"]
 
 if __name__ == "__main__":
     ids = sys.argv[1:] or ALL
